@@ -33,7 +33,7 @@ func init() { Registry["C06"] = c06 }
 // []byte (base64 in replay files); Text is the same input as a Go quoted
 // string for the reader.
 type c06Case struct {
-	Kind string `json:"kind"` // bytes | tokens | corpus | mutant | pump | cost
+	Kind string `json:"kind"` // bytes | tokens | corpus | mutant | pump | nest | cost | reusefam | reuse
 	Src  []byte `json:"src,omitempty"`
 	Text string `json:"text,omitempty"`
 	// Set selects the configuration set: 2 = full cross product, 1 =
@@ -44,6 +44,29 @@ type c06Case struct {
 	V   []byte `json:"v,omitempty"`
 	X   []byte `json:"x,omitempty"`
 	Cfg int    `json:"cfg,omitempty"`
+	// cost cases with a second repeated part: U V^k M W^k X
+	M []byte `json:"m,omitempty"`
+	W []byte `json:"w,omitempty"`
+	// reuse cases: Calls are made one after the other on ONE new Parser built
+	// with the options of Opt; the last call is the judged one.
+	Opt   *c06Cfg   `json:"opt,omitempty"`
+	Calls []c06Call `json:"calls,omitempty"`
+}
+
+// c06Call is one call of an entry point.
+type c06Call struct {
+	Entry int    `json:"entry"`
+	Early bool   `json:"early,omitempty"` // the consumer of an iterator stops after the first item
+	Src   []byte `json:"src"`
+	Text  string `json:"text,omitempty"`
+}
+
+func (cl c06Call) String() string {
+	s := c06Entries[cl.Entry]
+	if cl.Early {
+		s += "(stop after first)"
+	}
+	return fmt.Sprintf("%s(%q)", s, cl.Src)
 }
 
 // c06Cfg is one parser configuration plus entry point.
@@ -181,8 +204,9 @@ type c06Worker struct {
 	nodes    int
 	calls    int // callbacks of InteractiveSeq
 	counts   map[string]int
-	parsers  map[int64]*syntax.Parser
-	fresh    bool // do not use cached parsers
+	parsers  map[int64]*c06Cached
+	failHist []c06Call // calls made before the failing one on the cached parser that just failed
+	fresh    bool      // do not use cached parsers
 	info     bool // also try the consumers on trees returned with an error (counted only)
 	dkey     []byte
 	seen     map[uint64]struct{}
@@ -344,25 +368,69 @@ func c06b(x bool) uint64 {
 	return 0
 }
 
+// c06Cached is a cached parser and the calls made on it so far for the last
+// few inputs.
+type c06Cached struct {
+	p    *syntax.Parser
+	hist []c06Call
+}
+
+const c06HistInputs = 8 // the history keeps every call made for this many inputs
+
+func c06SameSrc(a, b []byte) bool {
+	if len(a) != len(b) {
+		return false
+	}
+	return len(a) == 0 || &a[0] == &b[0] || bytes.Equal(a, b)
+}
+
+// c06HistAdd appends a call, dropping the calls of all but the last
+// c06HistInputs distinct consecutive inputs.
+func c06HistAdd(h []c06Call, cl c06Call) []c06Call {
+	if n := len(h); n > 0 && !c06SameSrc(h[n-1].Src, cl.Src) {
+		inputs := 1
+		for i := n - 1; i > 0; i-- {
+			if !c06SameSrc(h[i].Src, h[i-1].Src) {
+				inputs++
+				if inputs > c06HistInputs {
+					h = append(h[:0], h[i:]...)
+					break
+				}
+			}
+		}
+	}
+	return append(h, cl)
+}
+
 // one runs a single configuration on src and returns the number of items
 // the entry point produced, the error text, and the first failure.
 func (w *c06Worker) one(g c06Cfg, src []byte, doPost bool) (items int, errText string, fail *vc.Fail) {
 	// Parsers are cached per worker and option set (allocating one costs
-	// more than parsing a short input). A failure seen with a cached parser
-	// is re-examined with a new one by the caller.
-	pk := c06Pack(0, c06Cfg{Lang: g.Lang, Keep: g.Keep, Stop: g.Stop, Rec: g.Rec})
-	p := w.parsers[pk]
-	if p == nil || w.fresh {
-		p = g.parser()
-		if !w.fresh {
-			w.parsers[pk] = p
-		}
+	// more than parsing a short input), together with the calls made on them
+	// for the last inputs. A failure seen with a cached parser is re-examined
+	// with a new one by the caller, and if it does not repeat there, with the
+	// recorded calls replayed on a new one (c06Worker.reuse).
+	if w.fresh {
+		return w.call(g.parser(), g, src, doPost)
 	}
-	defer func() {
-		if fail != nil {
-			delete(w.parsers, pk)
-		}
-	}()
+	pk := c06Pack(0, c06Cfg{Lang: g.Lang, Keep: g.Keep, Stop: g.Stop, Rec: g.Rec})
+	cp := w.parsers[pk]
+	if cp == nil {
+		cp = &c06Cached{p: g.parser()}
+		w.parsers[pk] = cp
+	}
+	items, errText, fail = w.call(cp.p, g, src, doPost)
+	if fail != nil {
+		w.failHist = cp.hist
+		delete(w.parsers, pk)
+	} else {
+		cp.hist = c06HistAdd(cp.hist, c06Call{Entry: g.Entry, Early: g.Early, Src: src})
+	}
+	return items, errText, fail
+}
+
+// call runs one entry point of p on src.
+func (w *c06Worker) call(p *syntax.Parser, g c06Cfg, src []byte, doPost bool) (items int, errText string, fail *vc.Fail) {
 	w.rd.Reset(src)
 	var err error
 	post := func(n syntax.Node, withErr bool) bool {
@@ -469,8 +537,20 @@ func (w *c06Worker) one(g c06Cfg, src []byte, doPost bool) (items int, errText s
 // failure wins over a classified one so that a recorded family cannot hide a
 // new defect on the same input.
 func (w *c06Worker) runCase(t c06Case) *vc.Fail {
-	if t.Kind == "cost" {
+	switch t.Kind {
+	case "cost":
 		return c06CostCase(t)
+	case "reusefam":
+		return w.runReuseFam(t)
+	case "reuse":
+		if t.Opt == nil || len(t.Calls) == 0 {
+			return nil
+		}
+		defer w.flush()
+		w.info = false
+		w.c.Eval(len(t.Calls) - 1)
+		fl, _, _ := w.runCalls(*t.Opt, t.Calls)
+		return fl
 	}
 	cfgs := c06CfgSets[t.Set]
 	w.info = t.Kind == "bytes" && len(t.Src) <= 2
@@ -498,14 +578,23 @@ func (w *c06Worker) runCase(t c06Case) *vc.Fail {
 		items, errText, fl := w.one(g, t.Src, doPost)
 		if fl != nil {
 			// same configuration with a parser nobody used before
+			hist := w.failHist
+			w.failHist = nil
 			w.fresh = true
 			clear(w.seen)
 			_, _, fl2 := w.one(g, t.Src, doPost)
 			w.fresh = false
 			if fl2 == nil || fl2.Key != fl.Key {
-				fl.Key = "only with a reused parser: " + fl.Key
-				fl.Msg = "only with a reused Parser (history unknown; parser reuse is property C08): " + fl.Msg
-				fl.Class = ""
+				// The failure depends on what the cached parser was used for
+				// before: replay the recorded calls on a new parser and report
+				// that sequence as the case (c06_reuse.go).
+				if w.reuse(g, hist, c06Call{Entry: g.Entry, Early: g.Early, Src: t.Src}, fl.Key) {
+					fl = fl2 // the input's own failure on a new parser, if any
+				} else {
+					fl.Key = "only with a reused parser: " + fl.Key
+					fl.Msg = fmt.Sprintf("only with a reused Parser, and not reproduced by replaying the %d calls made on it for the last %d inputs: %s", len(hist), c06HistInputs, fl.Msg)
+					fl.Class = ""
+				}
 			}
 		}
 		return items, errText, fl
@@ -570,7 +659,7 @@ var c06SiteRepl = strings.NewReplacer("(", "", ")", "", "*", "")
 var c06HangLimit = 20 * time.Second
 
 func c06CaseID(t c06Case) string {
-	return fmt.Sprintf("%s|%v|%q|%q|%q|%q|%d", t.Kind, t.Set, t.Src, t.U, t.V, t.X, t.Cfg)
+	return fmt.Sprintf("%s|%v|%q|%q|%q|%q|%d|%q|%q|%v|%v", t.Kind, t.Set, t.Src, t.U, t.V, t.X, t.Cfg, t.M, t.W, t.Opt, t.Calls)
 }
 
 // c06RunBatch runs the cases in a disposable goroutine watched by the
@@ -587,7 +676,7 @@ func c06RunBatch(c *vc.Ctx, cases []c06Case) []*vc.Fail {
 		done := make(chan struct{})
 		go func(from int) {
 			defer close(done)
-			w := &c06Worker{c: c, pr: pr, counts: map[string]int{}, parsers: map[int64]*syntax.Parser{}, seen: map[uint64]struct{}{}}
+			w := &c06Worker{c: c, pr: pr, counts: map[string]int{}, parsers: map[int64]*c06Cached{}, seen: map[uint64]struct{}{}}
 			for i := from; i < len(cases); i++ {
 				if pr.abandoned.Load() {
 					return
@@ -636,9 +725,13 @@ func c06RunBatch(c *vc.Ctx, cases []c06Case) []*vc.Fail {
 				where := c06Unpack(pr.where.Load())
 				copy(out[from:i], res[from:i])
 				t := cases[i]
+				what := fmt.Sprintf("%q", t.Src)
+				if t.Kind == "reuse" || t.Kind == "reusefam" {
+					what = t.Kind + " case " + t.Text + " (some call of the sequence)"
+				}
 				fl := &vc.Fail{
-					Key:   fmt.Sprintf("hang %s %q", where, t.Src),
-					Msg:   fmt.Sprintf("%s of %q does not return within %s (inputs of this size normally take microseconds)", where, t.Src, c06HangLimit),
+					Key:   fmt.Sprintf("hang %s %s", where, what),
+					Msg:   fmt.Sprintf("%s of %s does not return within %s (inputs of this size normally take microseconds)", where, what, c06HangLimit),
 					Class: c06HangClass(where, t.Src),
 				}
 				if _, dup := c06Hung.LoadOrStore(c06CaseID(t), fl); !dup {
@@ -673,7 +766,7 @@ func c06(c *vc.Ctx) {
 	sp := c06Space(c)
 	c.Rule = sp.describe()
 	c.Assumptions = []string{
-		"a parser is created per call (reuse is C08), input arrives in one Read (read schedules are C07)",
+		"parsers are cached per worker and option set; a failure is re-examined on a new parser and, if it does not repeat there, with the recorded calls of the last inputs replayed on a new parser (longer histories: C08); input arrives in one Read (read schedules are C07)",
 		"hang = one call into the code under test not returning within 20 s on an input of at most a few KiB (normal: microseconds); the spinning goroutine is abandoned",
 		"an unrecoverable runtime fatal error (stack exhaustion, out of memory) of the code under test kills the checker (exit 2) instead of being attributed to a case",
 		"cost growth is judged on heap allocation counts/bytes measured in single-goroutine child processes (deterministic) and, with a 2x margin on both sides and best-of-3, on thread CPU time (CLOCK_THREAD_CPUTIME_ID); no wall-clock bound other than the hang limit",
@@ -681,7 +774,7 @@ func c06(c *vc.Ctx) {
 	if os.Getenv("VERIF_C06_COUNT") != "" {
 		sp.gen(func(c06Case) {})
 		nf := 0
-		c06CostFamilies(sp.CostLen, sp.Closers, func(int, []byte, []byte, []byte) { nf++ })
+		c06CostFamilies(sp.CostLen, sp.Closers, func(int, c06Fam) { nf++ })
 		fmt.Println(sp.counts, "cost families:", nf)
 		os.Exit(0)
 	}
